@@ -245,6 +245,28 @@ def o4(tier):
     return memobs.invalidation(tier, 'O4', 'O4')
 
 
+def _shared(fn, oid, title):
+    r = fn()
+    r.oid = oid
+    r.title = title + ' -- ' + r.title[:200]
+    return r
+
+
+def o5(tier):
+    from props import C01
+    return _shared(lambda: C01.o7(tier), 'O5', 'shared with C01-O7: the echo of an own APPLICATION message is never taken for the pending own commit (it is confirmed as a message)')
+
+
+def o6(tier):
+    from props import C10
+    return _shared(lambda: C10.o4(tier), 'O6', 'shared with C10-O4: on SQLite re-saving a message (the own-copy confirmation) writes every column from its own field')
+
+
+def o7(tier):
+    from props import C10
+    return _shared(lambda: C10.o8(tier), 'O7', 'shared with C10-O8: on SQLite a saved message is read back with the timestamp / kind / epoch it was saved with')
+
+
 def run(tier, seed, only=None):
-    obs = [('O1', o1), ('O2', o2), ('O3', o3), ('O4', o4)]
+    obs = [('O1', o1), ('O2', o2), ('O3', o3), ('O4', o4), ('O5', o5), ('O6', o6), ('O7', o7)]
     return [f(tier) for k, f in obs if not only or k in only]
